@@ -1,0 +1,37 @@
+//go:build verif
+
+// Package verifhook re-exports internals of tableau to the external
+// verification harness. Every file of this package is guarded by the "verif"
+// build tag: without the tag the package does not exist for the compiler.
+package verifhook
+
+import (
+	"github.com/tableauio/tableau/internal/confgen"
+	"github.com/tableauio/tableau/internal/excel"
+	"github.com/tableauio/tableau/internal/protogen"
+	"github.com/tableauio/tableau/internal/protogen/parseroptions"
+	"github.com/tableauio/tableau/internal/strcase"
+	"github.com/tableauio/tableau/options"
+	"github.com/tableauio/tableau/proto/tableaupb"
+	"google.golang.org/protobuf/reflect/protoreflect"
+)
+
+type Header = parseroptions.Header
+
+func MergeHeader(sheetOpts *tableaupb.WorksheetOptions, bookOpts *tableaupb.WorkbookOptions, globalOpts *options.HeaderOption) *Header {
+	return parseroptions.MergeHeader(sheetOpts, bookOpts, globalOpts)
+}
+
+func LetterAxis(index int) string { return excel.LetterAxis(index) }
+
+func Position(row, col int) string { return excel.Postion(row, col) }
+
+// FieldSeps resolves the separators confgen uses for a field.
+func FieldSeps(bookOpts *tableaupb.WorkbookOptions, sheetOpts *tableaupb.WorksheetOptions, fd protoreflect.FieldDescriptor) (sep, subsep string) {
+	sp := confgen.NewExtendedSheetParser("protoconf", "", strcase.New(nil), bookOpts, sheetOpts, nil)
+	return confgen.VerifFieldSeps(sp, fd)
+}
+
+func RecordedBookOptions(header *options.HeaderOption) *tableaupb.WorkbookOptions {
+	return protogen.VerifRecordedBookOptions(header)
+}
